@@ -5,6 +5,12 @@ ROOT = os.path.dirname(os.path.dirname(os.path.abspath(__file__)))
 ids = [json.loads(l)['id'] for l in open(os.path.join(ROOT, 'properties.jsonl'))]
 
 CLAIMED = {
+ 'C01': dict(
+   technique='runtime monitoring: client+server pair simulator over byte pipes with seeded scheduler and transport-loss injection; offline delivery ledger (unique message ids: exactly-once / at-least-once / at-most-once, conservation at quiescence)',
+   level='fault_enumeration',
+   text='800 k (quick) / 30 M (thorough) executions of a real client object against a real server object: each side is fed only the bytes of the other side\'s RequestSendPacket events, in order, fragmented 1/2/3/frame/frame+1/all bytes; application workload with unique payload ids on both sides; transport losses at arbitrary byte offsets (inside fixed header / inside frame / at a boundary) with persistent-session resumption; virtual time for keep-alive. Oracle: no NotifyError from any recv, no keep-alive timeout on a live peer, quiescence within 64 x (messages in flight + 4) deliveries after faults stop, delivery ledger (QoS 2 exactly once, QoS 1 at least once and exactly once without loss, QoS 0 at most once, original topic), and at quiescence empty stores, no packet id in use and full Receive Maximum vacancy on both sides.',
+   note='Trusted: the application model of DESIGN Appendix G (executes events faithfully, truthful session_present, respects the peer\'s Receive Maximum / Topic Alias Maximum, limits constant across resumes); losses only for persistent sessions; zero-latency network.',
+   design='DESIGN.md §4 C01, Appendix G'),
  'C09': dict(
    technique='runtime monitoring: differential twins (one frame per buffer vs arbitrary chunking) + cursor-accounting monitor + exhaustive two-cut enumeration of short streams',
    level='exploration',
